@@ -166,7 +166,36 @@ def arm(plan: KillPlan) -> None:
         prefixes = (os.path.join(root, "parallel.py"),)
     else:
         prefixes = (root + os.sep,)
+    if getattr(plan, "trace_shutil", False):
+        import shutil
+
+        prefixes = (*prefixes, shutil.__file__)  # a copy that replaces a rename has kill points of its own
     sys.settrace(_make_tracer(prefixes))
+
+
+_REAL_RENAME: dict = {}
+
+
+def simulate_cross_device(cache_dir: str) -> None:
+    """The cache directory lives on another file system than everything else: a rename INTO it
+    from outside fails with EXDEV (as rename(2) does), renames inside it work."""
+    import errno
+
+    inside = os.path.realpath(cache_dir) + os.sep
+
+    def guard(real):  # noqa: ANN001, ANN202
+        def f(src, dst, *a, **k):  # noqa: ANN001, ANN002, ANN003, ANN202
+            s_in = (os.path.realpath(os.fspath(src)) + os.sep).startswith(inside) or os.path.realpath(os.path.dirname(os.fspath(src))) + os.sep == inside
+            d_in = os.path.realpath(os.path.dirname(os.fspath(dst))) + os.sep == inside
+            if s_in != d_in:
+                raise OSError(errno.EXDEV, "Invalid cross-device link (simulated)", os.fspath(src))
+            return real(src, dst, *a, **k)
+
+        return f
+
+    if not _REAL_RENAME:
+        _REAL_RENAME["rename"], _REAL_RENAME["replace"] = os.rename, os.replace
+        os.rename, os.replace = guard(os.rename), guard(os.replace)
 
 
 def disarm() -> None:
